@@ -384,13 +384,6 @@ async fn client_main(sim: Sim, res: Res, lbl: Lbl, ep: Endpoint, cfg: quinn::Cli
     // the scenario ends a connection only once the server application has read what was sent
     let mut nap = MS;
     loop {
-        let all = {
-            let r = res.lock().unwrap();
-            r.written.iter().filter(|((c, _), (_, complete))| *c == ci && *complete).all(|(k, (n, _))| r.read.get(k) == Some(n))
-        };
-        if all {
-            break;
-        }
         if let Some(e) = conn.close_reason() {
             let mut r = res.lock().unwrap();
             if r.lossy && matches!(e, quinn::ConnectionError::TimedOut) {
@@ -398,6 +391,13 @@ async fn client_main(sim: Sim, res: Res, lbl: Lbl, ep: Endpoint, cfg: quinn::Cli
             } else {
                 r.unexpected.push((ci, format!("client {}: connection ended by itself: {}", ci, e)));
             }
+            break;
+        }
+        let all = {
+            let r = res.lock().unwrap();
+            r.written.iter().filter(|((c, _), (_, complete))| *c == ci && *complete).all(|(k, (n, _))| r.read.get(k) == Some(n))
+        };
+        if all {
             break;
         }
         lbl.set("waiting for the server application to have read every finished stream");
